@@ -100,8 +100,9 @@ func (k Keeper) ReturnSlashedTokens(ctx context.Context, amt math.Int, hashId []
 
 		var val stakingtypes.Validator
 		val, err = k.stakingKeeper.GetValidator(ctx, valAddr)
-		if err != nil {
-			if !errors.Is(err, stakingtypes.ErrNoValidatorFound) {
+		// a validator slashed down to zero tokens cannot be delegated to: treat it like one that is gone
+		if err != nil || (!val.Tokens.IsNil() && !val.DelegatorShares.IsNil() && val.InvalidExRate()) {
+			if err != nil && !errors.Is(err, stakingtypes.ErrNoValidatorFound) {
 				return err
 			}
 			vals, err := k.GetBondedValidators(ctx, 1)
